@@ -24,7 +24,7 @@ LEAN = {"module": "Pygom.Props.C15",
         "required": ["Pygom.C15.rows_count", "Pygom.C15.row_zero", "Pygom.C15.row_is_path_state",
                      "Pygom.C15.counts_are_per_transition", "Pygom.C15.rows_differ_by_vmat_counts",
                      "Pygom.C15.exact_counts_counterexample"]}
-BUDGET = {"quick": {"models": 90}, "thorough": {"models": 1500, "max_steps": 2000}}
+BUDGET = {"quick": {"models": 300}, "thorough": {"models": 4000, "max_steps": 2000, "steps": [40, 150, 600, 1500]}}
 RULE = ("bounded-rate event models (shared generator), integer initial states, exact mode (plus 1 in 5 tau-leap runs for the "
         "count histogram), 2 paths each; grids of 2-12 points starting at t0, uniform or random spacing, given as list, tuple or "
         "array, horizons from half the expected run length to ten times it (grids extending past extinction, paths without "
@@ -46,7 +46,7 @@ def make_cases(rng, tier, budget):
             continue
         mode = "exact" if r.random() < 0.8 else r.choice(["tau_adaptive", "tau_fixed"])
         c = dict(base)
-        c["sim"] = SC.sim_settings(r, base, mode)
+        c["sim"] = SC.sim_settings(r, base, mode, steps=budget.get("steps"))
         t0 = c["sim"]["t0"]
         span = (c["sim"]["T"] - t0) * r.choice([0.5, 1, 1, 3, 10])
         n = r.randint(2, 12)
